@@ -103,6 +103,7 @@ def default_render(ns, na, ne, rng: random.Random | None = None, plain=False):
         "outside_to_last": any(lo > 0 or lo + d <= 0 for lo, d in zip(slows, sd)) and rng.random() < 0.6,
         "ghost": any(lo > 0 or lo + d <= 0 for lo, d in zip(slows, sd)),
         "v0_int": rng.random() < 0.25,
+        "v0_f32": rng.random() < 0.2,
         "adiv": rng.choice([1, 1, 1, 2, 4, 2 ** 30]),       # 2^30: distinct actions closer than 1e-8
         "aoffset": rng.choice([0, 0, 0, 1000000]),           # distinct actions closer than 1e-5 relative
         "sdiv": rng.choice([1, 1, 1, 2, 4]),
@@ -170,6 +171,9 @@ def make_problem(mdp: dict):
     v0_int = bool(r.get("v0_int", False)) and mdp["v0exp"] == 0
     if v0_int:
         v0 = jnp.array(np.round(v0_np).astype(np.int32))
+    elif r.get("v0_f32"):
+        # an initial-value heuristic written in single precision (dyadic values: exactly representable)
+        v0 = jnp.array(v0_np.astype(np.float32))
     pol0 = None
     if r.get("has_init_policy"):
         pol0 = jnp.array(avecs[np.array(mdp["pol0"], dtype=np.int32)])
@@ -187,6 +191,8 @@ def make_problem(mdp: dict):
     j_lows = jnp.array(np.array(slows, dtype=np.int32))
     j_dims = jnp.array(np.array(sdims, dtype=np.int32))
     prob_as_array = r.get("prob_as_array", False)
+    # "wild": only for the plain one-dimensional rendering (states 0..ns-1)
+    wild = bool(r.get("wild_zero_prob")) and list(sdims) == [ns] and list(slows) == [0] and sdiv == 1 and not ghost
     outside_to_last = bool(r.get("outside_to_last", False))
 
     class TabularProblem(Problem):
@@ -204,6 +210,8 @@ def make_problem(mdp: dict):
             return j_evecs
 
         def state_to_index(self, state):
+            if wild:
+                return _ivec(state)[0]            # one-dimensional space from 0: the component itself, not clipped
             v = _ivec(state) - j_lows
             rel = jnp.clip(v, 0, j_dims - 1)
             idx = jnp.sum(rel * j_strides)
@@ -236,6 +244,12 @@ def make_problem(mdp: dict):
 
         def transition(self, state, action, random_event):
             s, a, e = self._row(state), self._aidx(action), self._eidx(random_event)
+            if wild:
+                # an event that cannot happen (probability exactly 0) may "lead" anywhere - here to a vector far outside
+                # the state space whose index (state[0], unclipped, as in a problem that enforces its boundary through
+                # the probabilities) is beyond the last state; it must contribute nothing
+                nxt_vec = jnp.where(prob[s, a, e] == 0, j_states[nxt[s, a, e]] + (ns + 3), j_states[nxt[s, a, e]])
+                return nxt_vec, rew[s, a, e]
             return j_states[nxt[s, a, e]], rew[s, a, e]
 
         def initial_value(self, state):
